@@ -548,6 +548,8 @@ class Tracker:
         from pyhf import events
         self.pyhf, self.events = pyhf, events
         self.table = {c['name']: c for c in table}
+        self.order = [c['name'] for c in table]
+        self.cname = None
         self.log = []               # ('trigger', name) | ('pre', serial) | ('sub', serial, cls, event)
         self.serials = {}           # id(obj) -> (serial, weakref)
         self.objs = {}              # serial -> weakref
@@ -662,8 +664,10 @@ def tree_serials(t):
 
 
 def coq_tree(t):
-    return '(T %s %s %s true %d [%s])' % (core.cstr(t['cls']), core.cstr(t['mattr']), core.cbool(t['active']), t['shape'],
-                                         '; '.join(coq_tree(k) for k in t['kids']))
+    nm = Tracker.inst.cname if Tracker.inst is not None and getattr(Tracker.inst, 'cname', None) else None
+    cls = nm[t['cls']] if nm and t['cls'] in nm else core.cstr(t['cls'])
+    mat = nm[t['mattr']] if nm and t['mattr'] in nm else core.cstr(t['mattr'])
+    return '(T %s %s %s true %d [%s])' % (cls, mat, core.cbool(t['active']), t['shape'], '; '.join(coq_tree(k) for k in t['kids']))
 
 
 # =========================================================================================
@@ -1235,10 +1239,39 @@ def run_history(tr, ops):
     return R
 
 
-COQ_HEADER = '''From Coq Require Import String List.
-Require Import PV.Run PV.Events PV.gen.FactsC11.
+COQ_HEADER = '''From Coq Require Import ZArith String List.
+Require Import PV.Run PV.Events PV.EventsRun PV.gen.FactsC11.
 Import ListNotations. Open Scope string_scope.
 '''
+TRIGGERS = ['change_backend::before', 'tensorlib_changed', 'optimizer_changed', 'change_backend::after']
+
+
+def coq_header(tr):
+    """string constants are named once so that the (long) histories contain no string literal"""
+    names = sorted(set(tr.table) | {a for c in tr.table.values() for a, _ in c['members']} | {''})
+    tr.cname = {n: 'S%d' % i for i, n in enumerate(names)}
+    return COQ_HEADER + ''.join('Definition %s := %s.\n' % (v, core.cstr(k)) for k, v in sorted(tr.cname.items(), key=lambda kv: kv[1]))
+
+
+def decode_report(tr, rep):
+    """[( [(kind,a,b)...], raw )] -> the tuples check_against_model expects"""
+    classes = [c for c in tr.order]
+    out = []
+    for evs, raw in rep:
+        l = []
+        for k, a, b in evs:
+            if k == 0:
+                l.append(('EvTrigger', TRIGGERS[a] if 0 <= a < len(TRIGGERS) else '?'))
+            elif k == 1:
+                l.append(('EvPre', a))
+            elif k == 2:
+                l.append(('EvSub', a, classes[b] if 0 <= b < len(classes) else '?'))
+            elif k == 3:
+                l.append(('EvObs', a, 'true' if b else 'false'))
+            else:
+                l.append(('EvShape', a, b))
+        out.append((l, raw))
+    return out
 
 
 def check_against_model(R, rep):
@@ -1361,6 +1394,10 @@ def run(ctx):
         ok, txt = core.prove(ctx)
         if not ok:
             tie = 'proof obligations of props/C11.v no longer check: ' + txt[-1500:]
+        else:
+            rc, out, _ = core.coq_make(['EventsRun.vo'])
+            if rc != 0:
+                tie = 'coq/EventsRun.v does not build: ' + out[-800:]
     ctx.trusted += ['harness/props/c11.py:extract (python ast -> FactsC11.v): a syntactic over-approximation of which attributes hold backend tensors, '
                     'which are refreshed by _precompute, which are read at evaluation, and of the statement order in __init__/set_backend',
                     'Python garbage collector and weakref: an object is taken to be collected when a harness-side weak reference to it is dead '
@@ -1380,6 +1417,7 @@ def run(ctx):
         return
     backends = list(BACKENDS)
     tr = Tracker.get(fx['classes'])
+    header = coq_header(tr)
     found_concrete = False
     model_ok = tie is None or 'fact extraction' not in tie
     runs = []
@@ -1399,7 +1437,7 @@ def run(ctx):
     nh = ctx.n(32, 300)
     maxlen = ctx.n(12, 40)
     for k in range(nh):
-        hists.append(('random%d' % k, gen_history(rng, rng.randrange(4, maxlen + 1), backends, fit_prob=0.5 if ctx.quick else 0.8)))
+        hists.append(('random%d' % k, gen_history(rng, rng.randrange(4, maxlen + 1), backends, fit_prob=0.3 if ctx.quick else 0.8)))
 
     stats = dict(switches=0, tl_changes=0, creates=0, deletes=0, evals=0, zombies=0, fits=0, objects=0, callbacks=0)
     visited, sigs, exprs, diag_all = set(), set(), [], []
@@ -1427,14 +1465,14 @@ def run(ctx):
         diag_all += R.diags
         if R.aborted is not None:
             R.mops, R.expect = [], []
-        exprs.append('report facts_c11 [%s]' % '; '.join(R.mops))
+        exprs.append('enc_report facts_c11 [%s]' % '; '.join(R.mops))
     # ---- the same histories inside Coq ----
     disagreements = []
     if model_ok:
         try:
-            res = core.coq_eval(ctx, 'hist', COQ_HEADER, exprs, shard=max(1, (len(exprs) + core.NCPU - 1) // core.NCPU))
+            res = core.coq_eval(ctx, 'hist', header, exprs, shard=1 if ctx.quick else 4)
             for (name, ops, R), r in zip(runs, res):
-                rep = core.parse_qc(r)
+                rep = decode_report(tr, core.parse_qc(r.replace('%Z', '')))
                 for d in check_against_model(R, rep):
                     disagreements.append('%s: %s' % (name, d))
         except core.CoqEvalError as e:
